@@ -23,7 +23,7 @@ def cases(tier, seed):
     rng = T.Rng(seed * 1000003 + 1)
     out = []
     layouts = T.LAYOUTS_QUICK if tier == "quick" else [(N, P) for N in range(1, 7) for P in range(1, 7) if N * P <= 24]
-    reps = 1 if tier == "quick" else 4
+    reps = 3 if tier == "quick" else 12
     for _ in range(reps):
         for (N, P) in layouts:
             for routing in T.ROUTINGS:
